@@ -9,6 +9,7 @@ Record mcase : Type := {
   c_sub : list (nat * nat);                 (* (c, d): issubclass(c, d), reflexive pairs included *)
   c_fields : list (nat * nat * bool * nat); (* owner class, attribute, is_iterable, type endpoint *)
   c_opt : list (nat * nat);                 (* (owner class, attribute) whose field is Optional[...] *)
+  c_bcoll : list (nat * nat);               (* (owner class, attribute) holding a collection of builtin values *)
   c_objcls : list nat;                      (* classes of world objects (the others are int / str) *)
   c_rootsel : bool;                         (* entity_selection (root reported) or entity_matching *)
   c_T : nat;
